@@ -45,7 +45,8 @@ func (b *payPerInterval) intervalCredit(lastSeen time.Time) *big.Int {
 // OnClient is called when a client connects to the pool. If an error is
 // returned, the client is disconnected with the error.
 func (b *payPerInterval) OnClient(node store.Node) error {
-	if b.MinBalance == nil {
+	if b.MinBalance == nil || node.IsHost {
+		// Hosts earn credit, they are never refused for their balance.
 		return nil
 	}
 	balance, err := b.Store.GetNodeBalance(node.ID)
